@@ -292,8 +292,10 @@ impl Space {
     }
 
     /// Candidate text of world path `p` (which is `start` or below it).
+    /// (As text: a name that is not valid UTF-8 appears the way the lossy conversion of paths to
+    /// candidate text renders it.)
     pub fn rel(&self, p: &str) -> String {
-        join(&self.lead, rel_to(p, &self.start))
+        lossy(&join(&self.lead, rel_to(p, &self.start)))
     }
 }
 
